@@ -139,6 +139,40 @@ impl<Front: SocketHandler> std::fmt::Debug for ConnectionH1<Front> {
     }
 }
 
+/// Same defence as `pkawa::handle_trailer` on the H2 side: the attribution
+/// fields sozu writes or vouches for in the header section (RFC 9110 §6.5.1)
+/// must not come back as client trailers. `first_new_block` / `in_trailers`
+/// describe the parser state before the `parse` call that produced the blocks.
+fn elide_spoofable_trailers(
+    kawa: &mut super::GenericHttpStream,
+    sozu_id_header: &str,
+    first_new_block: usize,
+    mut in_trailers: bool,
+) {
+    let buf = kawa.storage.buffer();
+    for block in kawa.blocks.iter_mut().skip(first_new_block) {
+        match block {
+            kawa::Block::Flags(flags) if flags.end_body => in_trailers = true,
+            kawa::Block::Header(header) if in_trailers && !header.is_elided() => {
+                let key = header.key.data(buf);
+                let spoofable: [&[u8]; 7] = [
+                    b"x-real-ip",
+                    b"x-forwarded-for",
+                    b"forwarded",
+                    b"x-forwarded-proto",
+                    b"x-forwarded-port",
+                    b"x-request-id",
+                    sozu_id_header.as_bytes(),
+                ];
+                if spoofable.iter().any(|name| key.eq_ignore_ascii_case(name)) {
+                    header.elide();
+                }
+            }
+            _ => {}
+        }
+    }
+}
+
 impl<Front: SocketHandler> ConnectionH1<Front> {
     fn defer_close_for_tls_flush(&mut self, reason: &'static str) -> MuxResult {
         if self.initiate_close_notify() {
@@ -310,7 +344,12 @@ impl<Front: SocketHandler> ConnectionH1<Front> {
         }
 
         let was_main_phase = kawa.is_main_phase();
+        let was_in_trailers = kawa.parsing_phase == kawa::ParsingPhase::Trailers;
+        let blocks_before = kawa.blocks.len();
         kawa::h1::parse(kawa, parts.context);
+        if self.position.is_server() {
+            elide_spoofable_trailers(kawa, &parts.context.sozu_id_header, blocks_before, was_in_trailers);
+        }
         if kawa.is_error() {
             match self.position {
                 Position::Client(..) => {
@@ -699,6 +738,7 @@ impl<Front: SocketHandler> ConnectionH1<Front> {
                         // read into kawa storage in the first socket_read.
                         if !stream.front.storage.is_empty() {
                             kawa::h1::parse(&mut stream.front, &mut stream.context);
+                            elide_spoofable_trailers(&mut stream.front, &stream.context.sozu_id_header, 0, false);
                             let is_error = stream.front.is_error();
                             let is_main = stream.front.is_main_phase();
                             let malformed = is_main
